@@ -39,6 +39,8 @@ func isSubresourceCreate(in ssa.Instruction, sub string) bool {
 
 func runC11(c *Ctx) {
 	runC11ClaimFill(c)
+	runC11SwallowedErrors(c)
+	runC11OutcomeKept(c)
 	runC11LabelRemoval(c)
 	runC11ImmediateDelete(c)
 	borrow(c, "O7", "C17", "O2", "paired with ReleaseMutex", "a failed reservation step must not leave the group mutex held: the rollback of the same attempt would block forever and the request would never be reported failed")
@@ -529,4 +531,102 @@ func runC11ImmediateDelete(c *Ctx) {
 			"the reservation pod is deleted gracefully: it stays listed (Terminating, with its GPU index) while the retry of the failed bind looks the group's reservation pod up, is adopted, and vanishes after the pod was bound")
 	}
 	c.Floor("O10", "CONST reservation pod deletions", n, 1)
+}
+
+// runC11SwallowedErrors (O11): on the bind path an API write that failed must fail the attempt — a helper that logs
+// the error and reports success lets Binder.Bind go on to the pods/binding create with a half-prepared pod (a shared
+// GPU pod bound without its NVIDIA_VISIBLE_DEVICES / GPU_PORTION entry), and a bound pod is never repaired.
+// reviewedSwallows: "<function suffix>|<callee>" → why reporting success after that failed call is right.
+var reviewedSwallows = map[string]string{
+	"gpusharing.GPUSharing).Rollback|GetFractionContainerRef": "PreBind resolves the same container reference first and fails before it creates anything if it cannot: there is nothing to roll back",
+}
+
+func runC11SwallowedErrors(c *Ctx) {
+	n, nFn := 0, 0
+	for _, pk := range []string{"pkg/binder/common", "pkg/binder/binding", "pkg/binder/plugins"} {
+		for _, fn := range c.P.FuncsIn(pk) {
+			if isTestdataOrMock(fn) || fn.Parent() != nil {
+				continue
+			}
+			res := fn.Signature.Results()
+			if res.Len() == 0 || !types.Identical(res.At(res.Len()-1).Type(), errorType) {
+				continue
+			}
+			nFn++
+			for _, rp := range swallowedCallErrors(c.Fx, fn) {
+				skip := false
+				for k, why := range reviewedSwallows {
+					parts := strings.SplitN(k, "|", 2)
+					if strings.HasSuffix(funcKey(fn), parts[0]) && strings.Contains(rp.Desc, parts[1]) {
+						c.Hold("O11", "ERRFLOW", funcKey(fn)+": a failed "+parts[1]+" is deliberately not an error", rp.Pos, "reviewed: "+why)
+						skip = true
+					}
+				}
+				if skip {
+					continue
+				}
+				n++
+				c.Viol("O11", "ERRFLOW", funcKey(fn)+": success is not reported after a failed call", rp.Pos,
+					"the function returns a nil error on a path on which "+trunc(rp.Desc, 120)+" is non-nil and was not recognised as harmless: the caller goes on as if the step had succeeded")
+			}
+			c.Hold("O11", "ERRFLOW", funcKey(fn)+": success is not reported after a failed call", fn.Pos(), "no success return holds a failed call's error")
+		}
+	}
+	c.Floor("O11", "ERRFLOW error-returning functions of the bind path", nFn, 20)
+	_ = n
+}
+
+// runC11OutcomeKept (O12): Reconcile reports the attempt's outcome through its named result `err`, which the deferred
+// status update reads. Once the bind has failed (the branch that runs Rollback), nothing may overwrite that error:
+// assigning Rollback's own result to it turns a failed bind with a successful rollback into "Succeeded" — and a
+// Succeeded request is never looked at again.
+func runC11OutcomeKept(c *Ctx) {
+	f := c.Anchor("O12", "pkg/binder/controllers", "BindRequestReconciler", "Reconcile")
+	if f == nil {
+		return
+	}
+	n := 0
+	for _, rb := range instrsIn(f, isInvokeNamed("Rollback")) {
+		// the failure branch the rollback runs in: if <load of an error cell> != nil
+		for _, b := range f.Blocks {
+			iff, ok := b.Instrs[len(b.Instrs)-1].(*ssa.If)
+			if !ok {
+				continue
+			}
+			bo, ok := iff.Cond.(*ssa.BinOp)
+			if !ok || bo.Op != token.NEQ {
+				continue
+			}
+			ld, ok := bo.X.(*ssa.UnOp)
+			if !ok || ld.Op != token.MUL || !types.Identical(ld.Type(), errorType) {
+				continue
+			}
+			cell := ld.X
+			t := b.Succs[0]
+			if !(t == rb.Block() || t.Dominates(rb.Block())) {
+				continue
+			}
+			n++
+			var bad ssa.Instruction
+			for _, bb := range f.Blocks {
+				if bb != t && !t.Dominates(bb) {
+					continue
+				}
+				for _, in := range bb.Instrs {
+					if st, isSt := in.(*ssa.Store); isSt && st.Addr == cell {
+						bad = in
+					}
+				}
+			}
+			pos := instrPos(rb)
+			detail := ""
+			if bad != nil {
+				pos = instrPos(bad)
+				detail = "assigned " + trunc(termOf(bad.(*ssa.Store).Val).String(), 100)
+			}
+			c.Check(bad == nil, "O12", "MPT", funcKey(f)+": the bind error is not overwritten on the failure branch", pos, "no assignment to the outcome after the bind failed",
+				"the error of the failed bind is overwritten on the branch that rolls back ("+detail+"): when that value is nil the deferred status update marks the request Succeeded and the pod bound although it was rolled back, and the request is never retried")
+		}
+	}
+	c.Floor("O12", "MPT failure branches with a rollback", n, 1)
 }
